@@ -12,7 +12,7 @@ RULE = ("feature trees (nesting to depth 6, hidden entries, .gitignore/.fdignore
         "!negated patterns, file and directory symlinks relative/absolute/dangling/cyclic/leaving the root, directory "
         "names with regex metacharacters and non-ASCII text, sizes 0..100) x the full product of --depth {unset,0,1,2,3} "
         "x --hidden x --no-ignore x {none,-L,-S,-L -S}, each combined with a rotating choice of size filter, pattern "
-        "option and root form, plus a sweep of every pattern option (--name, --path absolute / cwd-relative from two "
+        "option and root form, plus a sweep of every pattern option (also with --base-dir pointing elsewhere than the working directory: input paths relative to it, patterns relative to the working directory) (--name, --path absolute / cwd-relative from two "
         "working directories, --exclude, --regex, --ignore-case) x link mode x depth {unset,2} (thorough: on three trees "
         "the complete product pattern option x depth x hidden x no-ignore x link mode); roots single, repeated, "
         "overlapping, given as arguments or through --stdin (no path may be listed twice); --one-fs with links (to a directory and to a single file) into a second file system and a nested mount. Oracle: reference walk "
@@ -358,6 +358,7 @@ def pattern_options():
         out.append(("exclude", {"exclude": [p]}, ""))
         if p.startswith("r/"):
             out.append(("exclude_abs", {"exclude": ["@TREE@/" + p]}, ""))
+            out.append(("exclude_rel_cwd_r", {"exclude": [p[2:]]}, "r"))
     for p in REGEX_PATTERNS:
         out.append(("regex_path", {"path": [p], "regex": True}, ""))
         out.append(("regex_exclude", {"exclude": [p], "regex": True}, ""))
@@ -422,6 +423,17 @@ def cases(tier, seed):
                         continue
                     out.append({"tree": tname, "o": dict(po, depth=depth, follow=follow, report_links=rl), "cwd": cwd,
                                 "roots": base_roots})
+        # --base-dir: relative INPUT PATHS are resolved against it, patterns stay relative to the working directory
+        for lab, po, cwd in popts:
+            if cwd != "r" and lab not in ("none", "name", "path_abs", "exclude_abs"):
+                continue
+            for follow in (False, True):
+                if tname == "ignore" and follow:
+                    continue
+                idx += 1
+                if quick and idx % 2:
+                    continue
+                out.append({"tree": tname, "o": dict(po, follow=follow), "cwd": "r", "roots": base_roots, "base_dir": True})
     if not quick:
         # thorough: the complete product pattern option x depth x hidden x no-ignore x link mode on three trees
         for tname in ("nest", "names", "links"):
@@ -505,6 +517,7 @@ def evaluate(case):
             if not roots:
                 roots = ["r"]
             cwd = os.path.join(sc.tree, case["cwd"]) if case["cwd"] else sc.tree
+            rel_roots = list(roots)
             if case["cwd"]:
                 roots = [os.path.join(sc.tree, r) for r in roots]
             o = dict(o)
@@ -516,6 +529,10 @@ def evaluate(case):
                 args = ["group", "--rf-over", "0"] + opt_args(o, sc.tree) + ["--stdin", "-f", "json"]
                 rc, out, err, to = C.fclones(args, sc, cwd=cwd, stdin=("\n".join(roots) + "\n").encode())
                 args = args + ["<"] + roots
+            elif case.get("base_dir"):
+                # the command runs in TREE/r; the input paths are given relative to --base-dir TREE
+                args = ["group", "--rf-over", "0"] + opt_args(o, sc.tree) + ["--base-dir", sc.tree] + rel_roots + ["-f", "json"]
+                rc, out, err, to = C.fclones(args, sc, cwd=cwd)
             else:
                 args = ["group", "--rf-over", "0"] + opt_args(o, sc.tree) + roots + ["-f", "json"]
                 rc, out, err, to = C.fclones(args, sc, cwd=cwd)
